@@ -109,6 +109,30 @@ fn find_hist(v: int) -> int {
     for x in hist { if x == v { break; } i = i + 1; }
     i
 }
+fn histogram(a: int) -> [int] {
+    let h = [0, 0, 0];
+    h[a % 3] += 1;
+    h[0] = h[0] + a;
+    h
+}
+fn tally(n: int) -> int {
+    let z = 0;
+    let acc = [z, 1];
+    for i in 0..n { acc[0] += i; acc[1] = acc[1] * 2; }
+    acc[0] + acc[1]
+}
+fn greet(name: str) -> [str] {
+    let parts = ["Hello", ""];
+    parts[1] = parts[1] + name;
+    parts[0] = parts[0] + ",";
+    parts
+}
+fn box(x: int) -> { v: int, tag: str } {
+    let o = new { v: 0, tag: "t" };
+    o.v = o.v + x;
+    o.tag = o.tag + "!";
+    o
+}
 let last: [int] = [0];
 fn remember(x: int) { last = [x]; }
 fn recall() -> int { last[0] }
@@ -224,7 +248,56 @@ func c16GenOp(s *simrt.Sim, m *c16Model, pfault int, force int) c16Op {
 			// handled by the caller: print fault / cancel fault on an ordinary op
 		}
 	}
-	switch pick(29, "op") {
+	switch pick(33, "op") {
+	case 29:
+		a := []int64{0, 1, 2, 7, 99}[pick(5, "arg")]
+		want := []int64{0, 0, 0}
+		want[a%3]++
+		want[0] += a
+		return c16Op{pure: true, reusable: true, fn: "histogram", args: []value.Value{vInt(a)}, desc: fmt.Sprintf("histogram(%d)", a), check: wantIntList(want)}
+	case 30:
+		n := []int64{0, 1, 4, 9}[pick(4, "arg")]
+		acc0, acc1 := int64(0), int64(1)
+		for i := int64(0); i < n; i++ {
+			acc0 += i
+			acc1 *= 2
+		}
+		return c16Op{pure: true, reusable: true, fn: "tally", args: []value.Value{vInt(n)}, desc: fmt.Sprintf("tally(%d)", n), check: wantInt(acc0 + acc1)}
+	case 31:
+		a := strArgs[pick(len(strArgs), "arg")]
+		return c16Op{pure: true, reusable: true, fn: "greet", args: []value.Value{vStr(a)}, desc: fmt.Sprintf("greet(%q)", a), check: func(v value.Value) string {
+			l, ok := v.(value.ValueList)
+			if !ok || l.Values == nil || len(*l.Values) != 2 {
+				return fmt.Sprintf("returned %T, want a list of two strings", v)
+			}
+			if msg := wantStr("Hello,")(*(*l.Values)[0]); msg != "" {
+				return "element 0: " + msg
+			}
+			if msg := wantStr(a)(*(*l.Values)[1]); msg != "" {
+				return "element 1: " + msg
+			}
+			return ""
+		}}
+	case 32:
+		x := intArgs[pick(len(intArgs), "arg")]
+		return c16Op{pure: true, reusable: true, fn: "box", args: []value.Value{vInt(x)}, desc: fmt.Sprintf("box(%d)", x), check: func(v value.Value) string {
+			o, ok := v.(value.ValueObject)
+			if !ok || len(o.FieldsInternal) != 2 {
+				return fmt.Sprintf("returned %T, want an object with fields v and tag", v)
+			}
+			vv, ok1 := o.FieldsInternal["v"]
+			tv, ok2 := o.FieldsInternal["tag"]
+			if !ok1 || !ok2 {
+				return "object lacks field v or tag"
+			}
+			if msg := wantInt(x)(*vv); msg != "" {
+				return "field v: " + msg
+			}
+			if msg := wantStr("t!")(*tv); msg != "" {
+				return "field tag: " + msg
+			}
+			return ""
+		}}
 	case 25:
 		n := []int64{0, 1, 3, 7, 8, 9}[pick(6, "arg")]
 		want := int64(-1)
@@ -828,6 +901,23 @@ func planC16(t *testing.T, tier string, seed uint64) ([]RunSpec, error) {
 		s.Sim = swarm(seed, i)
 		s.Sim.POther = 1 // operations, arguments and modes are drawn uniformly
 		s.Seed = runSeed(seed, i)
+		plan = append(plan, s)
+	}
+	// marathons: hundreds of calls on one VM ("repeatedly on the same VM" has no upper bound)
+	nm := 8
+	if !quick(tier) {
+		nm = 600
+	}
+	for i := 0; i < nm; i++ {
+		s := RunSpec{Property: "C16", Workload: "c16/history-marathon", Params: map[string]int{"len": 330, "pfault": 0}}
+		if i%2 == 1 {
+			s.Workload = "c16/history-marathon-fanout"
+			s.Params = map[string]int{"len": 140, "pfault": 0, "force_op": []int{11, 15}[(i/2)%2]}
+		}
+		s.Sim = swarm(seed, 5*n+i)
+		s.Sim.StepCostNs = 100
+		s.Sim.POther = 1
+		s.Seed = runSeed(seed, 5*n+i)
 		plan = append(plan, s)
 	}
 	// histories over generated pure functions (result must equal the fresh-VM result)
